@@ -1297,6 +1297,37 @@ def first_match(ctx, key, paths=None):
                 else:
                     exhausted.append(p)
             return dict(form="find", coll=_iter_source(call_args(F)[0]), elem=payload, found=found, exhausted=exhausted)
+    # a `for` over a filtered iterator whose body always leaves: no loop is left in the MIR, only one next() on the Filter
+    fnx = {}
+    for p in rets:
+        for c in p.conds():
+            if c.term[0] == "discr" and is_call(strip_refs(c.term[1]), "Filter<I, P> as std::iter::Iterator>::next") and strip_refs(c.term[1])[4] not in body.loops:
+                fnx.setdefault(strip_refs(c.term[1]), []).append((p, c))
+    if len(fnx) == 1 and not finds:
+        nx, occ = next(iter(fnx.items()))
+        it = call_args(nx)[0]
+        for _ in range(6):
+            while isinstance(it, tuple) and it and it[0] in ("ref", "refmut"):
+                it = it[1]
+            if isinstance(it, tuple) and it and it[0] == "loc" and len(it) > 2:
+                it = it[2]
+            elif is_call(it, "IntoIterator>::into_iter") and call_args(it):
+                it = call_args(it)[0]
+            else:
+                break
+        if is_call(it, "Iterator::filter") and len(call_args(it)) == 2:
+            clo = strip_refs(call_args(it)[1])
+            payload = ("field", ("downcast", nx, "Some"), 0, "0")
+            pe = mir.PathEval(ctx.fx, body, inline=ctx.inline_set, desugar=True)
+            alts = [(fs, v) for (_, fs, v) in pe._apply(clo, (("ref", payload),), 0) if v is not None]
+            if len(alts) == 1 and not alts[0][0]:
+                test, neg = alts[0][1], False
+                while isinstance(test, tuple) and test and test[0] == "unop" and test[1] == "Not":
+                    test, neg = test[2], not neg
+                found = [PathWith(p, [(test, ("eq", not neg))]) for (p, c) in occ if c.fact == ("eq", 1)]
+                exhausted = [p for (p, c) in occ if c.fact == ("eq", 0)]
+                if found and exhausted:
+                    return dict(form="filtered-first", coll=_iter_source(call_args(it)[0]), elem=payload, found=found, exhausted=exhausted)
     # loop form
     for h in sorted(body.loops):
         drv = [c for p in paths for c in p.conds() if c.term[0] == "discr" and is_call(strip_refs(c.term[1]), "::next") and strip_refs(c.term[1])[4] == h]
@@ -1306,6 +1337,31 @@ def first_match(ctx, key, paths=None):
         found = [p for p in rets if any(c.term == drv[0].term and c.fact == ("eq", 1) for c in p.conds())]
         exhausted = [p for p in rets if any(c.term == drv[0].term and c.fact == ("eq", 0) for c in p.conds()) and p not in found]
         backs = [p for p in paths if p.end[0] == "back" and p.end[1] == h]
+        if found and exhausted and not backs:
+            # `for x in coll.iter().filter(|x| test(x)) { ..work(x), always leaves the loop.. } fallback`: the first element that passes the filter
+            it = call_args(nx)[0]
+            for _ in range(6):
+                while isinstance(it, tuple) and it and it[0] in ("ref", "refmut"):
+                    it = it[1]
+                if isinstance(it, tuple) and it and it[0] == "loc" and len(it) > 2:
+                    it = it[2]
+                elif isinstance(it, tuple) and it and it[0] == "havoc" and len(it) > 3:
+                    it = it[3]
+                elif is_call(it, "IntoIterator>::into_iter") and call_args(it):
+                    it = call_args(it)[0]
+                else:
+                    break
+            if is_call(it, "Iterator::filter") and len(call_args(it)) == 2:
+                clo = strip_refs(call_args(it)[1])
+                payload = ("field", ("downcast", nx, "Some"), 0, "0")
+                pe = mir.PathEval(ctx.fx, body, inline=ctx.inline_set, desugar=True)
+                alts = [(fs, v) for (_, fs, v) in pe._apply(clo, (("ref", payload),), 0) if v is not None]
+                if len(alts) == 1 and not alts[0][0]:
+                    test, neg = alts[0][1], False
+                    while isinstance(test, tuple) and test and test[0] == "unop" and test[1] == "Not":
+                        test, neg = test[2], not neg
+                    return dict(form="filtered-loop", coll=_iter_source(call_args(it)[0]), elem=payload,
+                                found=[PathWith(p, [(test, ("eq", not neg))]) for p in found], exhausted=exhausted)
         if not found or not exhausted or not backs:
             continue
         # one test decides between `continue` and the work: every back edge took it one way, every found path the other way
